@@ -55,6 +55,24 @@ prop("C19", True, "model_checking",
      "Trusted: tolerance 1e-3 x control magnitude + 2e-6 x path magnitude for position equalities (DESIGN section 7).",
      "DESIGN.md 3/C19", E1)
 
+prop("C05", True, "model_checking",
+     "exhaustive enumeration of all files of <= k lines over a line-kind alphabet; trace decoder vs reference framing procedure, Beatmap vs reference driver, metamorphic insertions",
+     "Every file of up to k lines over the line-kind alphabet (x terminators x final newline x encodings) is decoded by the real driver through a trace decoder that records which line reached which section parser; the trace must equal the statement's framing procedure, the Beatmap must equal a reference driver over the public parse functions, and blank/comment/unknown-bracket insertions must change nothing.",
+     "Trusted: the 60-line reference framing procedure and reference text decoder; line contents limited to the alphabet.",
+     "DESIGN.md 3/C05", E1)
+
+prop("C08", True, "model_checking",
+     "choice-tree exploration of all reader chunk schedules and Interrupted placements (I/O environment as scheduler) + bounded deviations on real files",
+     "Every composition of every short file into chunks, with every placement of a bounded number of Interrupted answers, is run through the real decoder under a reader whose every refill is a choice point; on the bundled files (4 encodings) every single cut, interrupt placements, cut pairs on small files, chunk sizes 1..64, BufReader capacities 1..16 and five entry points are enumerated. The result must equal the single-chunk result.",
+     "Trusted: the scheduled readers; finite interrupt budget; sampled line-boundary offsets on the four large files in the quick tier.",
+     "DESIGN.md 3/C08", E1)
+
+prop("C09", True, "fault_enumeration",
+     "exhaustive fault-point enumeration: every byte offset x error kind x chunking on read, every output offset x fault type on write, every Interrupted placement",
+     "A failing reader/writer is placed at every offset of every pooled file / encoded map; a hard fault must surface as Err of the same kind (never Ok, never a panic), transient conditions must leave the result byte-identical.",
+     "Trusted: the injecting reader/writer; persistent faults only; offsets on large files restricted to head/tail and line boundaries in the quick tier.",
+     "DESIGN.md 3/C09", E1)
+
 NOT_BUILT_REASON = "check not built yet in this session (planned, see DESIGN.md section 3); not claimed until it exists"
 
 def main():
